@@ -345,7 +345,10 @@ func (store *KeyStore) SaveKeyPairWithFilename(keypair *keys.Keypair, filename s
 	}
 	store.cache.Add(filename, cacheEncryptedPrivate)
 	store.cache.Add(filename+".pub", keypair.Public.Value)
-	return nil
+	// The previous private key has just been moved into the history directory. A cached list of
+	// current and rotated file names does not name it yet; together with the new key cached above
+	// it would hide the rotated key from GetServerDecryptionPrivateKeys/GetPoisonPrivateKeys.
+	return store.refreshCachedHistoricalPrivateKeyFilenames(filepath.Join(store.privateKeyDirectory, filename))
 }
 
 func (store *KeyStore) generateKey(filename string, length uint8) ([]byte, error) {
@@ -490,7 +493,22 @@ func (store *KeyStore) GetHistoricalPrivateKeyFilenames(filename string) ([]stri
 			Errorln("Can't get cache value of historical private key filenames")
 	}
 
-	paths, err = getHistoricalFilePaths(fullPath, store.fs)
+	return store.loadHistoricalPrivateKeyFilenames(fullPath)
+}
+
+// refreshCachedHistoricalPrivateKeyFilenames re-reads a cached list of filenames for current and rotated keys
+// after the history directory of the key has changed. Nothing is read if the list is not cached.
+func (store *KeyStore) refreshCachedHistoricalPrivateKeyFilenames(fullPath string) error {
+	if _, ok := store.cache.Get(cacheKeyPrefix + fullPath); !ok {
+		return nil
+	}
+	_, err := store.loadHistoricalPrivateKeyFilenames(fullPath)
+	return err
+}
+
+// loadHistoricalPrivateKeyFilenames reads filenames for current and rotated keys from the storage and caches them
+func (store *KeyStore) loadHistoricalPrivateKeyFilenames(fullPath string) ([]string, error) {
+	paths, err := getHistoricalFilePaths(fullPath, store.fs)
 	if err != nil {
 		return nil, err
 	}
